@@ -42,7 +42,7 @@ MCLifecycleSpec == MCLifecycleInit /\ [][MCLifecycleNext \/ (LifecycleDone /\ UN
 
 ExportLifecycle ==
     LifecycleDone => PrintT(<<"REPLAY", ToJson([kind |-> "lifecycle", cap |-> DedupCap,
-        init |-> [s \in Sessions |-> [live |-> ss[s].live, n |-> ss[s].nOut, failAt |-> ss[s].failAt, r |-> rem[s].r]],
+        init |-> [s \in Sessions |-> [live |-> ss[s].live, n |-> ss[s].nOut, failAt |-> ss[s].failAt, r |-> rem[s].r, storeFail |-> ss[s].storeFail]],
         steps |-> hist])>>)
 
 ---------------------------------------------------------------------------
